@@ -51,7 +51,7 @@ def main():
     patch = os.path.join(wt, "patch.diff")
     meta = {"seed": seed, "breaks_property": prop, "worktree": wt, "demo_cmd": demo_cmd, "ran": []}
     # untracked demo files
-    rc, out = sh("git status --porcelain", wt)
+    rc, out = sh("git status --porcelain -uall", wt)
     demos = [l[3:] for l in out.splitlines() if l.startswith("??") and l.strip().endswith(".rs")]
     meta["demo_files"] = demos
     if not skip_confirm:
